@@ -64,6 +64,10 @@ fn main() {
         i += 1;
     }
     sim::install_panic_hook();
+    if profile != "miri" {
+        let limit = std::env::var("PVH_HANG_CPU_S").ok().and_then(|v| v.parse::<u64>().ok()).unwrap_or(100);
+        sim::start_cpu_watchdog(limit);
+    }
     if check == "selftest" {
         match refcodec::selftest() {
             Ok(n) => {
